@@ -38,6 +38,7 @@ type stageSpec struct {
 	Deps    []string   `json:"deps,omitempty"`
 	Outcome int        `json:"outcome"` // 0 ok, 1 fails, 2 fails+allow_failure, 3 condition false
 	Nested  *graphSpec `json:"nested,omitempty"`
+	SameAs  string     `json:"same_pipeline_as,omitempty"` // includes the very pipeline (same graph object) that this other stage includes
 	Cond    bool       `json:"cond,omitempty"` // has a (true) condition file the explorer can break
 }
 type graphSpec struct {
@@ -68,6 +69,7 @@ type mgraph struct {
 	stages []*mstage
 	by     map[string]*mstage
 	parent *mstage
+	also   []*mstage // further stages that include this same pipeline
 	real   *scheduler.ExecutionGraph
 }
 
@@ -80,6 +82,14 @@ func newModel(spec *graphSpec, prefix string, parent *mstage, all map[string]*ms
 		all[s.full] = s
 		if s.spec.Nested != nil {
 			s.inner = newModel(s.spec.Nested, s.full+"/", s, all)
+		}
+	}
+	for _, s := range g.stages {
+		if s.spec.SameAs != "" {
+			if first := g.by[s.spec.SameAs]; first != nil && first.inner != nil {
+				s.inner = first.inner
+				first.inner.also = append(first.inner.also, s)
+			}
 		}
 	}
 	g.markUncertain()
@@ -132,6 +142,16 @@ func (g *mgraph) markUncertain() {
 			}
 		}
 	}
+	for _, s := range g.stages {
+		// one uncertain includer makes the shared pipeline (and so every other includer) uncertain
+		if s.inner != nil && len(s.inner.also) > 0 {
+			for _, inc := range s.inner.includers() {
+				if inc.u {
+					s.u = true
+				}
+			}
+		}
+	}
 	for changed := true; changed; {
 		changed = false
 		for _, s := range g.stages {
@@ -159,6 +179,14 @@ func (g *mgraph) markAllUncertain() {
 			s.inner.markAllUncertain()
 		}
 	}
+}
+
+// includers returns every stage that includes this graph (none for the top-level graph).
+func (g *mgraph) includers() []*mstage {
+	if g.parent == nil {
+		return nil
+	}
+	return append([]*mstage{g.parent}, g.also...)
 }
 
 func (g *mgraph) done() bool {
@@ -274,7 +302,11 @@ func (g gate) Run(t *task.Task) error {
 	if x.cancelRet {
 		x.afterCancel = append(x.afterCancel, t.Name)
 	}
-	x.onEnter(t.Name)
+	if !x.cancelled {
+		// after a cancellation the gate has released everything with an error behind the model's back; what is
+		// handed to the (refusing) runner from then on says nothing about dependency order
+		x.onEnter(t.Name)
+	}
 	if x.cancelled {
 		x.events = append(x.events, "return:"+t.Name+":cancelled")
 		x.mu.Unlock()
@@ -367,6 +399,19 @@ func (x *execution) onEnter(name string) {
 		x.violate("C03", "stage-run-twice", fmt.Sprintf("stage %s handed to the runner %d times", name, x.enters[name]))
 	}
 	for cur := s; cur != nil; cur = cur.g.parent {
+		if cur != s && len(cur.inner.also) > 0 {
+			// the pipeline is included by several stages: it may run as soon as ONE of them has started
+			started := false
+			for _, inc := range cur.inner.includers() {
+				if inc.st != mWaiting || inc.u {
+					started = true
+				}
+			}
+			if !started {
+				x.violate("C01", "start-before-dependency-finished", fmt.Sprintf("%s (inside a pipeline included by several stages) entered the runner before any including stage was started", name))
+			}
+			break
+		}
 		if cur.spec.Outcome == oCondFalse {
 			x.violate("C02", "skipped-stage-ran", fmt.Sprintf("stage %s has a false condition but %s was run", cur.full, name))
 		}
@@ -476,7 +521,7 @@ func init() {
 var schedDelay atomic.Value
 
 func (x *execution) build(spec *graphSpec, m *mgraph) (*scheduler.ExecutionGraph, error) {
-	var stages []*scheduler.Stage
+	var stages, shared []*scheduler.Stage
 	for i := range spec.Stages {
 		sp := &spec.Stages[i]
 		ms := m.by[sp.Name]
@@ -500,6 +545,8 @@ func (x *execution) build(spec *graphSpec, m *mgraph) (*scheduler.ExecutionGraph
 				return nil, err
 			}
 			st.Pipeline = ig
+		} else if sp.SameAs != "" {
+			shared = append(shared, st)
 		} else {
 			t := task.NewTask()
 			t.Name = ms.full
@@ -508,6 +555,13 @@ func (x *execution) build(spec *graphSpec, m *mgraph) (*scheduler.ExecutionGraph
 		ms.real = st
 		execByStage.Store(st, x)
 		stages = append(stages, st)
+	}
+	for _, st := range shared {
+		for i := range spec.Stages {
+			if spec.Stages[i].Name == st.Name {
+				st.Pipeline = m.by[spec.Stages[i].SameAs].real.Pipeline
+			}
+		}
 	}
 	g, err := scheduler.NewExecutionGraph(stages...)
 	if err != nil {
@@ -522,7 +576,7 @@ func (x *execution) build(spec *graphSpec, m *mgraph) (*scheduler.ExecutionGraph
 
 func (x *execution) waitingWithCond() bool {
 	for _, s := range x.all {
-		if s.spec.Cond && s.st == mWaiting && !s.u && !neverScheduled(s) && (s.g.parent == nil || s.g.parent.st == mRunning) {
+		if s.spec.Cond && s.st == mWaiting && !s.u && !neverScheduled(s) && (s.g.parent == nil || anyRunning(s.g.includers())) {
 			return true
 		}
 	}
@@ -531,9 +585,11 @@ func (x *execution) waitingWithCond() bool {
 
 func (x *execution) activeTicked(n int) bool {
 	for g, m := range x.graphs {
-		active := m.parent == nil || (m.parent.st == mRunning && !m.done())
-		if m.parent != nil && m.parent.u {
-			active = false
+		active := m.parent == nil || (anyRunning(m.includers()) && !m.done())
+		for _, inc := range m.includers() {
+			if inc.u {
+				active = false
+			}
 		}
 		if active && x.ticks[g] < n {
 			return false
@@ -588,6 +644,7 @@ func runExecution(spec *graphSpec, strat strategy, work string) (res execResult)
 	sch.VerifSetPause(pauseFor)
 	var schedErr error
 	done := make(chan struct{})
+	x.model.settle() // before the scheduler can hand anything to the runner
 	go func() {
 		schedErr = sch.Schedule(g)
 		x.mu.Lock()
@@ -908,11 +965,26 @@ func runExecution(spec *graphSpec, strat strategy, work string) (res execResult)
 
 // neverScheduled: stage of an inner graph whose enclosing nested stage never started.
 func neverScheduled(s *mstage) bool {
-	for p := s.g.parent; p != nil; p = p.g.parent {
-		if p.u {
+	for g := s.g; g.parent != nil; g = g.parent.g {
+		never := true
+		for _, p := range g.includers() {
+			if p.u {
+				return true
+			}
+			if !(p.st == mFinal && (p.final == scheduler.StatusSkipped || p.final == scheduler.StatusCanceled)) {
+				never = false
+			}
+		}
+		if never {
 			return true
 		}
-		if p.st == mFinal && (p.final == scheduler.StatusSkipped || p.final == scheduler.StatusCanceled) {
+	}
+	return false
+}
+
+func anyRunning(ms []*mstage) bool {
+	for _, m := range ms {
+		if m.st == mRunning {
 			return true
 		}
 	}
@@ -1155,6 +1227,15 @@ func randomSpec(rnd *h.Rand, nmin, nmax int, nested bool) *graphSpec {
 		g.Stages[k].Nested = inner
 		if g.Stages[k].Outcome == oFail {
 			g.Stages[k].Outcome = oOK // a nested stage fails iff its inner graph does
+		}
+		if n >= 2 && rnd.Chance(35) {
+			// another stage of the same graph includes the very same pipeline
+			j := (k + 1 + rnd.Intn(n-1)) % n
+			g.Stages[j].SameAs = g.Stages[k].Name
+			g.Stages[j].Nested = nil
+			if g.Stages[j].Outcome == oFail {
+				g.Stages[j].Outcome = oOK
+			}
 		}
 	}
 	return g
